@@ -151,6 +151,7 @@ pub fn profile(r: &mut Rng, selected: u32) -> Profile {
         _ => *r.pick(&[0x00090000u32, 0x00000000, 0x0008ffff]),
     };
     p.core_optional = r.below(3) as u8;
+    p.connect_pdu_len_style = if r.chance(1, 3) { 1 } else { 0 };
     p.early_caps = *r.pick(&[0u32, 1, 2, 4, 7]);
     p.sec_optional = r.chance(1, 3);
     p.ber_form = *r.pick(&[0u8, 0, 1, 2]);
